@@ -63,6 +63,9 @@ type Engine struct {
 	noret     map[*ssa.Function]int // 0 unknown 1 returns 2 noreturn
 	siteCache map[ssa.CallInstruction][]*ssa.Function
 	domCache  map[*ssa.Function]*postDom
+	lockCache map[*ssa.Function]*lockFacts
+	ctxCache  map[*ssa.Function][]LockCtx
+	ctxBusy   map[*ssa.Function]bool
 }
 
 func short(s string) string {
